@@ -160,7 +160,9 @@ def write_files(spec, d):
         arr = make_array(spec)
         K = klass_of(fmt)
         if spec.get('endian') and fmt != 'mgh':     # header (and so the file) in the stated byte order
-            img = K(arr, np.diag([2., 3., 4., 1.]), header=K.header_class(endianness=spec['endian']))
+            hdr = K.header_class(endianness=spec['endian'])
+            hdr.set_data_dtype(arr.dtype)        # (a header passed in decides the on-disk dtype)
+            img = K(arr, np.diag([2., 3., 4., 1.]), header=hdr)
         else:
             img = K(arr, np.diag([2., 3., 4., 1.]))
         for i, n in enumerate(spec.get('exts', [])):
@@ -677,6 +679,8 @@ def mk_case(spec, member, mode, k, stream='prefix', slicer=None, how=''):
     st = int(strict)
     if fmt in VOLS:
         L = vol_layout(spec)
+        if fmt != 'cifti2':
+            assert L['n'] == int(np.prod(spec['shape'])) * np.dtype(spec['dtype']).itemsize, (spec, L['n'])
         mem = 'single' if fmt not in PAIRS else ('hdr' if member == 'header' else 'img')
         if fmt == 'cifti2':
             mem = 'cifti'
